@@ -73,6 +73,13 @@ Theorem c18_lsub_no_pct : forall (subs : list str) (reference pattern : str),
 Proof. exact lsub_no_pct. Qed.
 Print Assumptions c18_lsub_no_pct.
 
+Theorem c18_lsub_plain_exact : forall (subs : list str) (reference pattern n : str),
+  (forall m, In m subs -> to_upper m = INBOX -> m = INBOX) ->
+  (In n (snd (lsub_names subs reference pattern)) <->
+   In n subs /\ MatchesI (build_canonical_pattern reference pattern) n).
+Proof. exact lsub_plain_exact. Qed.
+Print Assumptions c18_lsub_plain_exact.
+
 Example c18_lsub_example :
   lsub_names [S_ "Foo/Bar/Baz"; S_ "Foo/Qux"] (S_ "Foo/") (S_ "%") = ([S_ "Foo/Bar"], [S_ "Foo/Qux"]).
 Proof. vm_compute. reflexivity. Qed.
